@@ -34,6 +34,9 @@ def gen_cases(tier, seed):
     cases = []
     for i in range(16 * k):
         cases.append(dict(kind="samplers", seed=int(rng.integers(1 << 30)), cost=3))
+    for i in range(6 * k):
+        cases.append(dict(kind="sampler_history", seed=int(rng.integers(1 << 30)),
+                          cost=8))
     for i in range(12 * k):
         cases.append(dict(kind="cem", seed=int(rng.integers(1 << 30)), cost=1))
     for i in range(4 * k):
@@ -95,17 +98,81 @@ def run_samplers(case):
     rng = np.random.default_rng(case["seed"])
     A = int(rng.integers(1, 4))
     space = rand_box(rng, A)
-    low, high = space.low.astype(np.float64), space.high.astype(np.float64)
-    scale = 0.5 * (space.high - space.low).astype(np.float64)
     noise = float(rng.choice([0.0, 0.1, 0.3, 1.0, 2.0]))
     clipf = float(rng.choice([0.0, 0.1, 0.5, 1.0]))
-    pol = make_policy(rng, space, gain=float(rng.choice([0.3, 1.0, 5.0])))
+    return _samplers_on(res, rng, space, noise, clipf)
+
+
+def _make_samplers(res, space, noise, clipf):
+    from rl_blox.algorithm.ddpg import make_sample_actions
+    from rl_blox.algorithm.td3 import make_sample_target_actions
+
     ok, f = guarded(res, "C10/raises/make_sample_actions", make_sample_actions,
                     space, noise)
     ok2, ft = guarded(res, "C10/raises/make_sample_target_actions",
                       make_sample_target_actions, space, noise, clipf)
-    if not (ok and ok2):
+    return (f, ft) if (ok and ok2) else None
+
+
+def run_sampler_history(case):
+    """Several samplers made in ONE process for boxes that share all but one of
+    shape / half-range / centre / noise level / clip, all made first and used
+    afterwards: each must respect its own box (round 9: a sampler memoised on
+    an incomplete key)."""
+    res = Result()
+    import gymnasium as gym
+
+    rng = np.random.default_rng(case["seed"])
+    A = int(rng.integers(1, 4))
+    base = rand_box(rng, A)
+    lo, hi = base.low.astype(np.float64), base.high.astype(np.float64)
+    half = 0.5 * (hi - lo)
+    noise = float(rng.choice([0.1, 0.3, 1.0]))
+    clipf = float(rng.choice([0.1, 0.5, 1.0]))
+
+    def box(l, h):
+        return gym.spaces.Box(l.astype(np.float32), h.astype(np.float32))
+
+    shift = half * rng.choice([-3.0, -1.0, 0.5, 2.0, 3.0], size=A)
+    fam = [(base, noise, clipf),
+           (box(lo + shift, hi + shift), noise, clipf),          # other centre
+           (box(lo - 0.5 * half, hi + 0.5 * half), noise, clipf),  # other range
+           (base, float(noise * 0.5), clipf),                    # other noise
+           (base, noise, float(clipf * 0.5)),                    # other clip
+           (box(lo - 2 * shift, hi - 2 * shift), noise, clipf),
+           (base, noise, clipf)]                                 # repeated
+    order = rng.permutation(len(fam))
+    made = {}
+    for i in order:
+        made[int(i)] = _make_samplers(res, *fam[int(i)])
+        if made[int(i)] is None:
+            return res
+    nontrivial = False
+    for i in rng.permutation(len(fam)):
+        sp, nz, cf = fam[int(i)]
+        n_viol = len(res.viol)
+        _samplers_on(res, rng, sp, nz, cf, made[int(i)])
+        if len(res.viol) > n_viol:
+            return res
+        nontrivial |= bool(res.nontrivial)
+        res.see("samplers_of_one_process_history")
+    res.nontrivial = nontrivial
+    res.state(("sampler_history", A, noise, clipf))
+    return res
+
+
+def _samplers_on(res, rng, space, noise, clipf, made=None):
+    import jax
+    import jax.numpy as jnp
+
+    low, high = space.low.astype(np.float64), space.high.astype(np.float64)
+    scale = 0.5 * (space.high - space.low).astype(np.float64)
+    pol = make_policy(rng, space, gain=float(rng.choice([0.3, 1.0, 5.0])))
+    if made is None:
+        made = _make_samplers(res, space, noise, clipf)
+    if made is None:
         return res
+    f, ft = made
     batched = bool(rng.integers(2))
     clipped_any = inside_any = False
     zs = {}
@@ -174,7 +241,7 @@ def run_samplers(case):
                 return res
         res.see("target_actions_checked", int(t.size))
     res.nontrivial = clipped_any and inside_any
-    res.state(("samplers", A, noise, clipf, batched))
+    res.state(("samplers", int(space.shape[0]), noise, clipf, batched))
     return res
 
 
